@@ -83,6 +83,23 @@ def zlist(xs):
     return "[" + "; ".join(("(%d)" % x) if x < 0 else str(x) for x in xs) + "]"
 
 
+def oracle_value(b, off, size, kind, order):
+    """what field (off, size, kind, order) of buffer b reads, as the driver prints it; None = not compared"""
+    if len(b) < off + size:
+        return "x"
+    v = int.from_bytes(bytes(b[off:off + size]), "big" if order == "BigEndian" else "little")
+    if kind == "UInt":
+        return str(v)
+    if kind == "Int":
+        return str(v - (1 << (8 * size)) if v >> (8 * size - 1) else v)
+    if kind == "Bcd":
+        digits = [(v >> (4 * k)) & 15 for k in range(2 * size)]
+        if any(d > 9 for d in digits):
+            return "x"          # not Ok(): no value
+        return str(sum(d * 10 ** k for k, d in enumerate(digits)))
+    return None
+
+
 def run(ctx):
     ctx.rule = ("modules from harness/gen_view.py (feature vector: scalars x widths x byte orders, conditions incl. switch pattern, "
                 "dynamic offsets/sizes, bits blocks, enums, virtual fields, aliases, nested structs, parameters (nested and top-level), an imported module, arrays, $next, requires, type-boundary virtual fields); "
@@ -150,12 +167,12 @@ def run(ctx):
                     continue
                 header = header.replace('#include "inc.emb.h"', inc_header)
                 ctx.count("module-with-import")
-            driver = tr.driver("/*INLINE*/\n" + header, top, pvals, bufs)
+            driver = tr.driver("/*INLINE*/\n" + header, top, pvals, bufs, probes=[o[0] for o in gm.oracle])
         except OutOfModel as ex:
             ctx.count("out-of-model:" + str(ex).split(" ")[0])
             continue
         jobs.append(cpp_build.CppJob("m%d" % i, None, driver))
-        infos.append(dict(i=i, text=text, mod=mod_term, top=top, bufs=bufs, prefix_pairs=prefix_pairs, pvals=pvals))
+        infos.append(dict(i=i, text=text, mod=mod_term, top=top, bufs=bufs, prefix_pairs=prefix_pairs, pvals=pvals, oracle=gm.oracle))
     ctx.obligation("tie for size_is_max_end: %d structures' synthesized $size fields have the modelled shape" % n_size_checked,
                    n_size_checked > 0 and not any(v["key"] == "size-synthesis" for v in ctx.violations))
     results = cpp_build.run_jobs(os.path.join(ctx.bdir, "cpp"), jobs, parallel=fw.NPROC)
@@ -186,6 +203,32 @@ def run(ctx):
                 obs = obs[:50] + [-777]
             cases.append(("(%d%%nat, %s)" % (k, zlist(b)), zlist(obs), dict(module=info["text"], buffer=b, cpp=obs)))
             ctx.count("buflen:%s" % ("0" if not b else "1-4" if len(b) <= 4 else "5-16" if len(b) <= 16 else ">16"))
+    # by-construction oracle (independent of the front end and of the IR translation): the unconditional
+    # scalar fields of Top read the bytes the .emb text designates, in the byte order the language rules
+    # make effective (field attribute, else the MODULE default; a $default of another structure must not leak)
+    n_oracle, n_oracle_bad = 0, 0
+    for info in infos:
+        res = results["m%d" % info["i"]]
+        if not res.ok:
+            continue
+        qlines = {l.split(" ", 1)[0]: l.split()[1:] for l in res.lines if l.startswith("Q")}
+        for bi, b in enumerate(info["bufs"]):
+            got = qlines.get("Q%d" % bi)
+            if got is None or len(got) != len(info["oracle"]):
+                continue
+            for g, (nm, off, size, kind, order) in zip(got, info["oracle"]):
+                want = oracle_value(b, off, size, kind, order)
+                if want is None:
+                    continue
+                n_oracle += 1
+                if g != want:
+                    n_oracle_bad += 1
+                    if n_oracle_bad <= 3:
+                        ctx.violation("view-oracle", "field %s (%s, %d bytes at %d, %s): generated code reads %s, the .emb text designates %s"
+                                      % (nm, kind, size, off, order, g, want),
+                                      dict(kind="view", module=info["text"], buffer=b, field=nm, observed=g, expected=want), found_input=True)
+    ctx.obligation("spec: %d scalar reads of generated views equal the by-construction oracle (offset, width, kind, effective byte order)" % n_oracle,
+                   n_oracle > 0 and n_oracle_bad == 0)
     stable_cases = []
     kk = 0
     for info in infos:
